@@ -89,6 +89,11 @@ func init() {
 	}
 }
 
+func init() {
+	IDByName["Golang"] = tls.HelloGolang
+	IDByName["Custom"] = tls.HelloCustom
+}
+
 func LookupID(name string) (tls.ClientHelloID, error) {
 	id, ok := IDByName[name]
 	if !ok {
